@@ -29,7 +29,7 @@ static void showg(const char *n, i128 v) { printf("  %s = %lld\n", n, (long long
 #define LBm(p) ((p).f0)
 #define UBm(p) ((p).f1)
 #define RIBIN(id, EXPR, COND) REPLAY(id) { RI a = mki(wit, "a"), b = mki(wit, "b"); i128 g_x = GX, g_y = GY; showi("self", a); showi("x", b); showg("g_x", g_x); showg("g_y", g_y); \
-  RI r = EXPR; showi("result", r); I self_ = toI(a), x_ = toI(b), ret_ = toI(r); I *self = &self_, *x = &x_, *ret = &ret_; return (COND); }
+  RI r = EXPR; showi("result", r); I self_ = toI(a), x_ = toI(b), ret_ = toI(r); I *self = &self_, *x = &x_, *ret = &ret_; return i_okz(*ret, ZLIM) && (COND); }
 #define ANYBOT (i_bot(*self) || i_bot(*x))
 RIBIN(i_add, a + b, i_okz(*ret, 2 * ZB) && (ANYBOT ? i_bot(*ret) : i_is(*ret, x_add(LBm(*self), LBm(*x)), x_add(UBm(*self), UBm(*x)))) && (!(i_has(*self, g_x) && i_has(*x, g_y)) || i_has(*ret, g_x + g_y)))
 RIBIN(i_sub, a - b, i_okz(*ret, 2 * ZB) && (ANYBOT ? i_bot(*ret) : i_is(*ret, x_add(LBm(*self), x_neg(UBm(*x))), x_add(UBm(*self), x_neg(LBm(*x))))) && (!(i_has(*self, g_x) && i_has(*x, g_y)) || i_has(*ret, g_x - g_y)))
@@ -48,7 +48,7 @@ RIBIN(i_shl, a.Shl(b), (!ANYBOT || i_bot(*ret)) && (!(i_has(*self, g_x) && i_has
 RIBIN(i_join, a | b, (i_bot(*self) ? i_eq(*ret, *x) : i_bot(*x) ? i_eq(*ret, *self) : i_is(*ret, x_min(LBm(*self), LBm(*x)), x_max(UBm(*self), UBm(*x)))) && (!(i_has(*self, g_x) || i_has(*x, g_x)) || i_has(*ret, g_x)))
 RIBIN(i_meet, a & b, i_has(*ret, g_x) == (i_has(*self, g_x) && i_has(*x, g_x)))
 static inline int i_rank(I i){ return i_bot(i) ? 0 : 1 + (b_inf(i.f0) ? 1 : 0) + (b_inf(i.f1) ? 1 : 0); }
-RIBIN(i_widen, a || b, (!i_leq(*x, *self) || i_eq(*ret, *self)) && (i_leq(*x, *self) || i_rank(*ret) > i_rank(*self)) && (!(i_has(*self, g_x) || i_has(*x, g_x)) || i_has(*ret, g_x)))
+RIBIN(i_widen, a || b, (!i_leq(*x, *self) || i_eq(*ret, *self)) && (i_leq(*x, *self) || i_rank(*ret) > i_rank(*self)) && i_rank(*ret) <= 3 && (ANYBOT || ((b_eq(LBm(*ret), LBm(*self)) || b_minf(LBm(*ret))) && (b_eq(UBm(*ret), UBm(*self)) || b_pinf(UBm(*ret))))) && (!(i_has(*self, g_x) || i_has(*x, g_x)) || i_has(*ret, g_x)))
 RIBIN(i_narrow, a && b, (!i_leq(*x, *self) || (i_leq(*ret, *self) && i_leq(*x, *ret))) && (!(i_leq(*x, *self) && i_has(*x, g_x)) || i_has(*ret, g_x)))
 RIBIN(i_trim, linear_interval_solver_impl::trim_interval<RI>(a, b), (!(i_has(*self, g_x) && !(i_has(*x, g_x) && !i_has(*x, g_x + 1) && !i_has(*x, g_x - 1))) || i_has(*ret, g_x)) && (!i_has(*ret, g_x) || i_has(*self, g_x)))
 REPLAY(i_neg) { RI a = mki(wit, "a"); i128 g_x = GX; showi("self", a); RI r = -a; showi("result", r); I s = toI(a), t = toI(r); return (i_bot(s) ? i_bot(t) : i_is(t, x_neg(s.f1), x_neg(s.f0))) && (!i_has(s, g_x) || i_has(t, -g_x)); }
